@@ -72,6 +72,22 @@ pub fn canon(o: &Outcome<(Vec<u8>, usize)>) -> String {
     }
 }
 
+/// What the reader MODEL is expected to answer for these bytes.  The models have single-step granularity;
+/// the real LZMA readers decode a whole read call's worth of symbols after the source has run dry (the range
+/// decoder then supplies zeros and remembers the error), so on a corrupt stream they may report the "dist
+/// overflow" of a garbage symbol (`Other`) where a finer read schedule reports `UnexpectedEof` first.  When the
+/// 4096-byte schedule says `Other`, the 1-byte schedule decides what is expected.
+pub fn expected(fmt: &str, multi: bool, bytes: &[u8], cap: usize) -> String {
+    let o = real_decode(fmt, multi, bytes, cap);
+    if let Outcome::Err(std::io::ErrorKind::Other, m) = &o {
+        if !m.contains("output-cap-exceeded") {
+            let fine = if fmt == "xz" { xz_decompress(bytes, multi, &[1], cap) } else { lzip_decompress(bytes, &[1], cap) };
+            return canon(&fine);
+        }
+    }
+    canon(&o)
+}
+
 pub fn model_req(fmt: &str, multi: bool, bytes: &[u8], cap: usize) -> String {
     if fmt == "xz" {
         format!("xz.dec multi={} in={} cap={}", multi as u8, hex(bytes), cap)
@@ -86,7 +102,7 @@ fn check_mutant(rep: &mut Report, f: &ValidFile, mutant: &[u8], what: &str, mode
     let o = real_decode(f.fmt, false, mutant, cap);
     rep.count(&format!("outcome.{}", o.class()));
     if model {
-        rep.model(model_req(f.fmt, false, mutant, cap), canon(&o));
+        rep.model(model_req(f.fmt, false, mutant, cap), expected(f.fmt, false, mutant, cap));
     }
     let detail = || json!({"file": f.name, "format": f.fmt, "mutation": what, "file_len": f.bytes.len(), "mutant_hex": if mutant.len() <= 400 { hex(mutant) } else { format!("fnv:{}", fnv(mutant)) }, "original_hex": if f.bytes.len() <= 400 { hex(&f.bytes) } else { "-".into() }});
     match &o {
@@ -95,7 +111,8 @@ fn check_mutant(rep: &mut Report, f: &ValidFile, mutant: &[u8], what: &str, mode
                 // LZIP: losing whole trailing members whose magic is damaged is what the format defines
                 let tolerated = f.fmt == "lzip" && f.data.starts_with(out) && lzip_prefix_members(&f.bytes, mutant, out.len());
                 if !tolerated {
-                    rep.fail(&format!("corrupt-accepted:{}:{}", f.fmt, what.split('@').next().unwrap_or(what)), "corrupted file decoded successfully to different data", detail());
+                    let id = if f.fmt == "lzip" && mutant.is_empty() { "corrupt-accepted:lzip:empty-input".to_string() } else { format!("corrupt-accepted:{}:{}", f.fmt, what.split('@').next().unwrap_or(what)) };
+                    rep.fail(&id, "corrupted file decoded successfully to different data", detail());
                 }
             }
         }
@@ -372,7 +389,7 @@ pub fn run_c04(rep: &mut Report, rng: &mut Rng, thorough: bool) {
         }
         for fmt in ["xz", "lzip"] {
             let o = real_decode(fmt, false, &g, 1 << 16);
-            rep.model(model_req(fmt, false, &g, 1 << 16), canon(&o));
+            rep.model(model_req(fmt, false, &g, 1 << 16), expected(fmt, false, &g, 1 << 16));
             if let Outcome::Ok((out, _)) = &o {
                 rep.fail(&format!("garbage-accepted:{fmt}"), &format!("non-{fmt} input of {} bytes decoded successfully to {} bytes", g.len(), out.len()), json!({"input_hex": hex(&g), "case": i}));
             }
@@ -441,7 +458,7 @@ pub fn run_c12(rep: &mut Report, rng: &mut Rng, thorough: bool) {
         }
         if is_xz {
             let o = real_decode("xz", true, &bytes, cap);
-            rep.model(model_req("xz", true, &bytes, cap), canon(&o));
+            rep.model(model_req("xz", true, &bytes, cap), expected("xz", true, &bytes, cap));
             match (&o, legal) {
                 (Outcome::Ok((out, used)), true) => {
                     if out != &data {
@@ -457,7 +474,7 @@ pub fn run_c12(rep: &mut Report, rng: &mut Rng, thorough: bool) {
             }
             // multi = false: stops after the first stream, having consumed exactly its bytes
             let o1 = real_decode("xz", false, &bytes, cap);
-            rep.model(model_req("xz", false, &bytes, cap), canon(&o1));
+            rep.model(model_req("xz", false, &bytes, cap), expected("xz", false, &bytes, cap));
             match &o1 {
                 Outcome::Ok((out, used)) => {
                     let f0 = xz.iter().find(|f| f.name == names[0]).unwrap();
@@ -469,7 +486,7 @@ pub fn run_c12(rep: &mut Report, rng: &mut Rng, thorough: bool) {
             }
         } else {
             let o = real_decode("lzip", false, &bytes, cap);
-            rep.model(model_req("lzip", false, &bytes, cap), canon(&o));
+            rep.model(model_req("lzip", false, &bytes, cap), expected("lzip", false, &bytes, cap));
             match &o {
                 Outcome::Ok((out, used)) => {
                     if out != &data {
